@@ -760,3 +760,101 @@ Proof.
   apply sget_raw_length in E. specialize (IH rest). lia.
 Qed.
 End SplatCost.
+
+(* ================================================================== ASCII PLY: token cut inside a face line, whole file *)
+Lemma rva_zero bs np (l : list (list tok)) : read_vertices_ascii bs np l 0 = Ok ([], l).
+Proof. destruct l; reflexivity. Qed.
+
+(* the vertex block consumes the same lines whatever follows them *)
+Lemma read_vertices_ascii_ext bs np : forall lines n rows rest,
+  read_vertices_ascii bs np lines n = Ok (rows, rest) ->
+  forall l', read_vertices_ascii bs np (firstn (length lines - length rest) lines ++ l') n = Ok (rows, l').
+Proof.
+  induction lines as [|x l IH]; intros n rows rest H l'.
+  - destruct n; cbn [read_vertices_ascii] in H; [|discriminate].
+    assert (rows = [] /\ rest = []) as [-> ->] by (split; congruence). cbn [length Nat.sub firstn app]. apply rva_zero.
+  - destruct n as [|n].
+    + rewrite rva_zero in H. assert (rows = [] /\ rest = x :: l) as [-> ->] by (split; congruence).
+      rewrite Nat.sub_diag. cbn [firstn app]. apply rva_zero.
+    + cbn [read_vertices_ascii] in H. destruct x as [|t ts].
+      * pose proof (sp_read_vertices_ascii bs np (S n) l rows rest H) as (c & Hc & Hr & _).
+        assert (Hlen : length rest = (length l - c)%nat) by (rewrite Hr; apply skipn_length).
+        replace (length ([] :: l) - length rest)%nat with (S (length l - length rest)) by (simpl length; lia).
+        cbn [firstn app read_vertices_ascii]. apply IH. exact H.
+      * destruct (length (t :: ts) <? np)%nat eqn:El; [discriminate|].
+        destruct (mapR (fun b => read_ascii_row b (t :: ts)) bs) as [row|] eqn:Er; cbn [rbind] in H; [|discriminate].
+        destruct (read_vertices_ascii bs np l n) as [[rows' r2]|] eqn:E2; cbn [rbind] in H; [|discriminate].
+        assert (rows = row :: rows' /\ rest = r2) as [-> ->] by (split; congruence).
+        pose proof (sp_read_vertices_ascii bs np n l rows' r2 E2) as (c & Hc & Hr & _).
+        assert (Hlen : length r2 = (length l - c)%nat) by (rewrite Hr; apply skipn_length).
+        replace (length ((t :: ts) :: l) - length r2)%nat with (S (length l - length r2)) by (simpl length; lia).
+        cbn [firstn app read_vertices_ascii]. rewrite El, Er. cbn [rbind].
+        rewrite (IH n rows' r2 E2 l'). reflexivity.
+Qed.
+
+(* number of lines of [l] the face block reads: blank lines are skipped, [n] non-blank ones are used *)
+Fixpoint face_lines (l : list (list tok)) (n : nat) : nat :=
+  match l, n with
+  | _, O => 0
+  | [], _ => 0
+  | [] :: r, _ => S (face_lines r n)
+  | _ :: r, S n' => S (face_lines r n')
+  end.
+
+Lemma face_lines_zero l : face_lines l 0 = 0%nat.
+Proof. destruct l as [|[|? ?] ?]; reflexivity. Qed.
+
+Lemma faces_ascii_partial rs ip tp : forall l n st r j m,
+  faces_ascii rs ip tp l n st = Ok r -> (j < face_lines l n)%nat ->
+  (0 < m)%nat -> (m < face_used rs (nth j l []))%nat ->
+  faces_ascii rs ip tp (firstn j l ++ [firstn m (nth j l [])]) n st = Err EDeclared.
+Proof.
+  induction l as [|x l IH]; intros n st r j m H Hj Hm0 Hm.
+  - destruct n; simpl in Hj; lia.
+  - destruct n as [|n]; [rewrite face_lines_zero in Hj; lia|].
+    cbn [faces_ascii] in H. destruct x as [|t ts].
+    + destruct j as [|j].
+      * cbn [nth] in Hm. destruct rs; simpl in Hm; lia.
+      * cbn [firstn app nth faces_ascii]. apply (IH (S n) st r j m H); try assumption. simpl in Hj. lia.
+    + destruct (face_ascii rs 0 ip tp (t :: ts) st) as [st'|] eqn:Ef; cbn [rbind] in H; [|discriminate].
+      destruct j as [|j].
+      * cbn [firstn app nth] in *. destruct m as [|m]; [lia|].
+        cbn [firstn faces_ascii]. change (t :: firstn m ts) with (firstn (S m) (t :: ts)).
+        rewrite (face_ascii_partial rs 0 ip tp (t :: ts) st st' (S m) Ef Hm). reflexivity.
+      * destruct (face_out match tp with Some _ => true | None => false end st') as [[ix uv]|] eqn:Eo; cbn [rbind] in H; [|discriminate].
+        destruct (faces_ascii rs ip tp l n st') as [[ixs uvs]|] eqn:E2; cbn [rbind] in H; [|discriminate].
+        cbn [firstn app nth faces_ascii]. rewrite Ef. cbn [rbind]. rewrite Eo. cbn [rbind].
+        rewrite (IH n st' (ixs, uvs) j m E2); try assumption; [reflexivity|]. simpl in Hj. lia.
+Qed.
+
+Section AsciiFaceCut.
+Import String.
+(* ply.ReadMesh on an ASCII file cut at a token boundary inside a face line: [jv] = lines of the vertex block,
+   the cut is in line [j] of the face block after 0 < m tokens, fewer than that line's lists announce: reported *)
+Theorem ply_ascii_face_line_cut hdr lines mesh h ve fe bs rows rest rs ip tp j m :
+  read_mesh {| pf_header := hdr; pf_body := BodyAscii lines |} = Ok mesh ->
+  parse_header hdr = Ok h ->
+  find_last_elem "vertex"%string (h_elems h) None = Some ve ->
+  find_last_elem "face"%string (h_elems h) None = Some fe ->
+  build_readers false default_groups true (e_props ve) = Ok bs ->
+  read_vertices_ascii bs (List.length (e_props ve)) lines (Z.to_nat (e_count ve)) = Ok (rows, rest) ->
+  face_setup fe = Ok (rs, ip, tp) ->
+  (j < face_lines rest (Z.to_nat (e_count fe)))%nat ->
+  (0 < m)%nat -> (m < face_used rs (nth j rest []))%nat ->
+  read_mesh {| pf_header := hdr;
+               pf_body := BodyAscii (firstn (List.length lines - List.length rest) lines
+                                     ++ firstn j rest ++ [firstn m (nth j rest [])]) |} = Err EDeclared.
+Proof.
+  intros H Hh Hve Hfe Hbs Hrv Hfs Hj Hm0 Hm.
+  unfold read_mesh in *. cbn [pf_header pf_body] in *. rewrite Hh in *. cbn [rbind] in *.
+  unfold read_body in *. rewrite Hve, Hfe in *. cbn [of_opt rbind] in *. cbv zeta in *.
+  destruct (negb (all_scalar (e_props ve))); [discriminate|].
+  destruct (e_count ve <? 0)%Z; [discriminate|].
+  destruct (h_fmt h); cbv beta iota in *; try discriminate.
+  rewrite Hbs in *. cbn [rbind] in *.
+  rewrite (read_vertices_ascii_ext _ _ _ _ _ _ Hrv). rewrite Hrv in H. cbn [rbind] in *.
+  rewrite Hfs in *. cbn [rbind] in *.
+  destruct (faces_ascii rs ip tp rest (Z.to_nat (e_count fe)) fstate0) as [r|] eqn:Ef; cbn [rbind] in H; [|discriminate].
+  rewrite (faces_ascii_partial rs ip tp rest _ fstate0 r j m Ef Hj Hm0 Hm). reflexivity.
+Qed.
+End AsciiFaceCut.
